@@ -149,11 +149,12 @@ theorem asShipped_oem_c0_counterexample (v : Variant) (hv : v.picmgTypeOnly = tr
         parseFru v k (encodeFru img) = .ok (view img) := by
   intro h
   have := h witnessOem .bytes (by decide)
+  clear h
   obtain ⟨a, b, c, d, e, f, g, h'⟩ := v
   simp only at hv
   subst hv
-  revert this
-  cases a <;> cases b <;> cases c <;> cases d <;> cases f <;> cases g <;> cases h' <;> decide
+  revert this a b c d f g h'
+  decide +kernel
 
 /-- … namely: the foreign OEM record comes back as a MicroTCA power module capability record with a
 "maximum current output" of 820.8 A that nobody encoded (`witnessOem`), and the PICMG record id and
@@ -249,7 +250,8 @@ theorem asShipped_fields_outside_counterexample (v : Variant) (hv : v.fieldsLax 
   obtain ⟨a, b, c, d, e, f, g, h'⟩ := v
   simp only at hv
   subst hv
-  cases a <;> cases b <;> cases c <;> cases d <;> cases e <;> cases g <;> cases h' <;> decide +kernel
+  revert a b c d e g h'
+  decide +kernel
 
 /-- board area of 16 bytes followed by a product area of 24 bytes whose first 8 bytes sum to FFh – the
 image of the second audit's finding 2 -/
@@ -271,7 +273,8 @@ theorem asShipped_overlap_counterexample (v : Variant) (hv : v.overlapLax = true
   obtain ⟨a, b, c, d, e, f, g, h'⟩ := v
   simp only at hv
   subst hv
-  cases a <;> cases b <;> cases c <;> cases d <;> cases e <;> cases f <;> cases h' <;> decide +kernel
+  revert a b c d e f h'
+  decide +kernel
 
 /-- … and the same through the device path (`Fru.get_fru_inventory` without the layout check). -/
 theorem asShipped_device_overlap_counterexample (v : Variant) (hv : v.devOverlapLax = true) :
@@ -280,7 +283,8 @@ theorem asShipped_device_overlap_counterexample (v : Variant) (hv : v.devOverlap
   obtain ⟨a, b, c, d, e, f, g, h'⟩ := v
   simp only at hv
   subst hv
-  cases a <;> cases b <;> cases c <;> cases d <;> cases e <;> cases f <;> cases g <;> decide +kernel
+  revert a b c d e f g
+  decide +kernel
 
 /-! ### altered images are rejected -/
 
@@ -438,19 +442,23 @@ theorem asShipped_length_zero_counterexample (v : Variant) (hv : v.areaLenLax = 
   obtain ⟨a, b, c, d, e, f, g, h'⟩ := v
   simp only at hv
   subst hv
-  cases a <;> cases b <;> cases d <;> cases e <;> cases f <;> cases g <;> cases h' <;> decide +kernel
+  revert a b d e f g h'
+  decide +kernel
 
 /-- … and a length that reaches behind the end of the image (FCh = 2016 bytes) is accepted when
 the truncated remainder happens to sum to zero (one value of the byte does that for almost every
-image). -/
-theorem asShipped_length_beyond_counterexample (v : Variant) (hv : v.areaLenLax = true) :
+image).  (`overlapLax`: such a span necessarily runs over the areas that follow – a lone area's remainder sums
+to zero only for the genuine length – so the layout check of fixes/C15-5.diff alone rejects this witness too.) -/
+theorem asShipped_length_beyond_counterexample (v : Variant) (hv : v.areaLenLax = true)
+    (hv' : v.overlapLax = true) :
     (encodeFru witnessLen).length = 22 ∧
     (parseFru v .bytes ((encodeFru witnessLen).set 9 0xFC)).isOk = true ∧
     checksumsOk ((encodeFru witnessLen).set 9 0xFC) = false := by
   obtain ⟨a, b, c, d, e, f, g, h'⟩ := v
-  simp only at hv
-  subst hv
-  cases a <;> cases b <;> cases d <;> cases e <;> cases f <;> cases g <;> cases h' <;> decide +kernel
+  simp only at hv hv'
+  subst hv hv'
+  revert a b d e f h'
+  decide +kernel
 
 /-- Device path without the validation in `_read_fru_area`: the altered image (followed by FFh up
 to the device size) is accepted and the chassis area comes back as an object without attributes
@@ -461,7 +469,8 @@ theorem asShipped_device_length_zero_counterexample (v : Variant) (hv : v.devLen
   obtain ⟨a, b, c, d, e, f, g, h'⟩ := v
   simp only at hv
   subst hv
-  cases a <;> cases b <;> cases c <;> cases e <;> cases f <;> cases g <;> cases h' <;> decide +kernel
+  revert a b c e f g h'
+  decide +kernel
 
 /-- `limitImage`: chassis area with 8 bytes of unused space (16 bytes); `limitImage'`: the same
 content without the unused space (8 bytes). -/
@@ -523,7 +532,9 @@ theorem tables_match_storage_definition :
     -- would make an `Option.all` statement vacuous) and they carry the storage definition's values
     FruTables.picmgMfgId = some picmgMfgId ∧
     FruTables.dispatchMinData = some 10 ∧ FruTables.dispatchMinLen = some 5 ∧
-    FruTables.picmgMinLen = some 5 ∧ FruTables.powerMinLen = some 7 := by
+    FruTables.picmgMinLen = some 5 ∧ FruTables.powerMinLen = some 7 ∧
+    -- the guard of the repaired FruTypeLengthString.__init__ is present and masks the length bits 5:0
+    FruTables.fieldLenMask = some 0x3F := by
   decide
 
 /-! ### today's source IS the intended variant
@@ -579,9 +590,17 @@ example : isAreaLengthByte demo 17 = true ∧
 example : checksumsOk (encodeFru demo) = true := by decide +kernel
 example : imageOk (encodeFru demo) = true := by decide +kernel
 -- the hypotheses of `alteration_rejected_length_byte` / `_no_spare_unit` are satisfiable: byte 17 is the chassis
--- length byte (5 units, one of them unused: need 28 bytes), byte 57 the board's (5 units, none unused: need 34)
-example : isAreaLengthByte demo 17 = true ∧ (encodeFru demo)[17]? = some 5 ∧ lengthByteNeed demo 17 = 28 ∧
-    isAreaLengthByte demo 57 = true ∧ (encodeFru demo)[57]? = some 5 ∧ lengthByteNeed demo 57 = 34 := by decide +kernel
+-- length byte (4 units, one of them unused: the area needs 19 bytes), byte 49 the board's (3 units, none unused:
+-- it needs 21 bytes), byte 73 the product's
+example : isAreaLengthByte demo 17 = true ∧ (encodeFru demo)[17]? = some 4 ∧ lengthByteNeed demo 17 = 19 ∧
+    isAreaLengthByte demo 49 = true ∧ (encodeFru demo)[49]? = some 3 ∧ lengthByteNeed demo 49 = 21 ∧
+    isAreaLengthByte demo 73 = true ∧ (encodeFru demo)[73]? = some 3 ∧ lengthByteNeed demo 73 = 20 := by
+  decide +kernel
+-- the chassis length byte shortened to 3 units keeps everything the area holds (19 ≤ 24) but the span does not sum
+-- to zero; shortened to 2 units it cuts into the fields: both rejected, as is every lengthening
+example : parseFru .intended .bytes ((encodeFru demo).set 17 3) = .decodingError ∧
+    parseFru .intended .bytes ((encodeFru demo).set 17 2) = .decodingError ∧
+    parseFru .intended .bytes ((encodeFru demo).set 17 5) = .decodingError := by decide +kernel
 -- the repaired reader rejects both audit witnesses on both paths with DecodingError
 example : parseFru .intended .array ((encodeFru witnessFields).set 9 1) = .decodingError ∧
     parseFruDevice .intended ((encodeFru witnessFields).set 9 1 ++ List.replicate 8 0xFF) = .decodingError ∧
